@@ -426,7 +426,7 @@ func runOnce(s *Scenario, c Component, n int, prefix []int, cut int) []vsched.Ch
 						vsched.Unblock(phaseObj)
 					}
 				}
-				vsched.Step() // invocation: a scheduling point and a logged access
+				vsched.StepK(vsched.KInvoke) // invocation: a scheduling point and a logged access
 				start := len(vsched.Acc)
 				h.Events = append(h.Events, Event{T: t, K: k, Time: start})
 				res := inst.Exec(t, op)
@@ -456,6 +456,10 @@ func runOnce(s *Scenario, c Component, n int, prefix []int, cut int) []vsched.Ch
 		} else {
 			fmt.Fprintf(out, " %d", t)
 		}
+	}
+	fmt.Fprintf(out, "\nK")
+	for _, k := range vsched.AccKind {
+		fmt.Fprintf(out, " %d", k)
 	}
 	fmt.Fprintf(out, "\nC")
 	for _, ch := range tr {
